@@ -1290,7 +1290,8 @@ MANIFEST = {
              "against an independent list-based Clifford product, plus Hypothesis-generated "
              "multivectors with Fraction and symbolic coefficients (exact comparison through "
              "rational-function normal forms) for bilinearity, associativity, "
-             "rev/invol/dual/norm_squared/inv identities and ==/hash/bool. Exploration: "
+             "rev/invol/dual/norm_squared/inv identities and ==/hash/bool (numeric and "
+             "expression coefficients). Exploration: "
              "complete only for the enumerated blade spaces named in the evidence."),
     "note": ("Trusted: pbt/ga_ref.py (sort-and-contract blade product), pbt/polynf.py, the "
              "documented bit<->basis-vector decoding of MultiVector.data. Inner product "
